@@ -45,6 +45,8 @@ type c14Expect struct {
 	Qual     string `json:"qual,omitempty"`
 	Multiset bool   `json:"multiset,omitempty"`
 	Twice    bool   `json:"twice,omitempty"`
+	// failing_calls: the number of invocations the query makes (rows x call sites)
+	NRows int `json:"n_rows,omitempty"`
 }
 
 // c14Differential: shapes in which the column an ASYNC call fills is consumed by a later stage of the same
@@ -154,6 +156,100 @@ func evalC14FailingRow(b *Bundle, r *Runner) []*Violation {
 	}
 	if started > 0 {
 		r.Stats.probe("failing_row_calls_in_flight_checked")
+	}
+	return nil
+}
+
+// genC14FailingCalls: the qualified calls themselves fail - several of them in one Exec, by returned error or by panic -
+// and the caller has installed no handler, a handler that records, or a handler that panics. Whatever becomes of the
+// failures, the strategies keep their promise about timing: every ASYNC/SPINASYNC call was invoked exactly once per row
+// and has finished when Exec returns (with a result or an error), every SPIN call exactly once after the drain.
+func genC14FailingCalls(t *rapid.T) *Bundle {
+	n := rapid.IntRange(2, 7).Draw(t, "nrows")
+	rows := []any{}
+	for i := 0; i < n; i++ {
+		rows = append(rows, map[string]any{"id": float64(i + 1), "a": float64(i * 10), "n": []any{map[string]any{"v": float64(i)}, map[string]any{"v": float64(i + 10)}}})
+	}
+	qual := rapid.SampledFrom([]string{"ASYNC", "ASYNC", "SPINASYNC", "SPIN"}).Draw(t, "fc_qual")
+	alias := ""
+	if qual == "ASYNC" {
+		alias = " AS y"
+	}
+	per := 1 // invocations per row of t
+	shape := rapid.SampledFrom([]string{"top", "top_two", "sub", "cte", "derived"}).Draw(t, "fc_shape")
+	var q string
+	switch shape {
+	case "top":
+		q = fmt.Sprintf("SELECT id, %s.fx(1, a)%s FROM t", qual, alias)
+	case "top_two":
+		q = fmt.Sprintf("SELECT id, %s.fx(1, a)%s, SPINASYNC.fx(1, id) FROM t", qual, alias)
+		per = 2
+	case "sub":
+		q = fmt.Sprintf("SELECT id, (SELECT %s.fx(1, v)%s FROM n) AS sub FROM t", qual, alias)
+		per = 2
+	case "cte":
+		q = fmt.Sprintf("WITH c AS (SELECT id, %s.fx(1, a)%s FROM t) SELECT * FROM c", qual, alias)
+	case "derived":
+		q = fmt.Sprintf("SELECT * FROM (SELECT id, %s.fx(1, a)%s FROM t) d", qual, alias)
+	}
+	total := n * per
+	exp := c14Expect{Place: "failing_calls", Sites: []c14Site{{ID: 1, Kind: strings.ToLower(qual)}}, NRows: total}
+	op := casefmt.Op{Doc: 0, Vars: -1, Query: q}
+	switch rapid.IntRange(0, 2).Draw(t, "fc_handler") {
+	case 0:
+		op.NoHandlers = true
+	case 1:
+		op.HandlerPanics = true
+	}
+	op.ExecTwice = rapid.IntRange(0, 3).Draw(t, "fc_twice") == 0
+	c := oneClientCase("C14", drawSim(t, ""), map[string]any{"t": rows}, op)
+	c.Stubs.Lat = drawLatencies(t, []int{1}, total)
+	ks := rapid.SliceOfNDistinct(rapid.IntRange(1, total), 1, min(4, total), func(k int) int { return k }).Draw(t, "fc_ks")
+	for _, k := range ks {
+		c.Stubs.Faults = append(c.Stubs.Faults, casefmt.Fault{ID: 1, K: k, Kind: rapid.SampledFrom([]string{"error", "panic", "panic_str"}).Draw(t, "fc_kind")})
+	}
+	tags := []string{"place:failing_calls", "shape:" + shape}
+	if op.HandlerPanics {
+		tags = append(tags, "handler_panics")
+	}
+	return &Bundle{Prop: "C14", Kind: "failing_calls", Case: c, Expect: mustJSON(exp), Tags: tags}
+}
+
+func evalC14FailingCalls(b *Bundle, r *Runner, exp *c14Expect) []*Violation {
+	o := r.Run(&b.Case, false)
+	if vs := processHealth(b, o); len(vs) > 0 {
+		return vs
+	}
+	op := &o.Ops[0]
+	q := b.Case.Clients[0].Ops[0].Query
+	if !op.Returned {
+		return []*Violation{mkViolation(b, "INCOMPLETE_AT_RETURN", "never_returned", q+": Exec did not return", o)}
+	}
+	if b.Case.Clients[0].Ops[0].ExecTwice {
+		return nil // two evaluations share the call log: only the health of the process is judged
+	}
+	kind := exp.Sites[0].Kind
+	calls, late, faulted := 0, 0, 0
+	for _, c := range o.Calls {
+		if c.ID != 1 {
+			continue
+		}
+		calls++
+		if c.Faulted != "" {
+			faulted++
+		}
+		if kind != "spin" && (c.SeqStart > op.SeqReturn || c.SeqEnd == 0 || c.SeqEnd > op.SeqReturn) {
+			late++
+		}
+	}
+	if faulted > 0 {
+		r.Stats.probe("qualified_calls_failed")
+	}
+	if late > 0 {
+		return []*Violation{mkViolation(b, "INCOMPLETE_AT_RETURN", "kind="+kind+" failing_calls", fmt.Sprintf("%s: %d of %d %s call(s) had not finished when Exec returned (%s%s); %d call(s) failed as planned", q, late, calls, kind, op.NewErr, op.ExecErr, faulted), o)}
+	}
+	if calls != exp.NRows {
+		return []*Violation{mkViolation(b, "CALL_COUNT", "kind="+kind+" failing_calls", fmt.Sprintf("%s: %d invocation(s), want %d (one per row and call site) - %d call(s) failed as planned; Exec: %s%s", q, calls, exp.NRows, faulted, op.NewErr, op.ExecErr), o)}
 	}
 	return nil
 }
@@ -569,6 +665,8 @@ func genC14(t *rapid.T) *Bundle {
 		return genC14FailingRow(t)
 	case 15:
 		return genC14CallsInJoinOn(t)
+	case 16, 17:
+		return genC14FailingCalls(t)
 	}
 	nrows := rapid.IntRange(0, 6).Draw(t, "nrows")
 	place := rapid.SampledFrom([]string{"top", "derived_star", "cte", "subquery", "derived_cols", "subquery_in_derived", "subquery_in_cte", "union_branch", "exists", "cte_chain", "grid"}).Draw(t, "place")
@@ -889,6 +987,9 @@ func evalC14(b *Bundle, r *Runner) []*Violation {
 	}
 	if exp.Place == "calls_in_join_on" {
 		return evalC14CallsInJoinOn(b, r)
+	}
+	if exp.Place == "failing_calls" {
+		return evalC14FailingCalls(b, r, &exp)
 	}
 	o := r.Run(&b.Case, false)
 	vs := processHealth(b, o)
